@@ -8,6 +8,9 @@ CLAIMED = {
   'C02': dict(section='4 C02', technique='Coq proof (R) that all views equal the quadratic form of M=L^T L for the translated query API; exact-lane and rational correspondence; representation-equivalence differential',
               text='Theorem C02_holds: squared distance = quadratic form of get_mahalanobis_matrix(), distance = Euclidean distance of transformed points, get_metric plain/squared, transform rows = L x_i with shape (n,k), M is d x d, entrywise symmetric and PSD, score_pairs = pair_distance; all about the Gallina regenerated from base_metric.py. Tie: bit-exact exact lane, rational tolerance lane on real fits, and bit-identical outputs across list/int/Fortran/strided/index representations.',
               note='as C01'),
+  'C04': dict(section='4 C04', technique='Coq proof (R) of the decision rules for the Gallina translated from the three classifier mixins; bit-exact exact-lane correspondence with forced ties; ROC-AUC oracle validated against Mann-Whitney in exact rationals',
+              text='Theorem C04_holds: translated pairs predict = +1 iff distance <= threshold (else -1), decision = -distance, monotone in threshold and distance, set_threshold stores its argument, score = roc_auc_score(y, decision); triplets predict +1 iff d(a,b) < d(a,c), decision = d(a,c)-d(a,b), swap negates, score = fraction of +1; quadruplets predict sign(d(c,d)-d(a,b)), swap negates. Tie: translator + bit-exact comparison on integer data with ties (threshold on / one ulp around a distance, equal distances, identical points, calibrated thresholds).',
+              note='as C01; roc_auc_score is an oracle validated per run against the Mann-Whitney count'),
 }
 
 NOT_YET = {}
